@@ -84,7 +84,10 @@ def run_c19(tier, seed):
 
         def part(i):
             tf = os.path.join(wd, "tt%d.ndjson" % i)
-            p = run_harness([binp, "drive-text", str(seed * 1000 + i), str(per), tf], stdout=subprocess.PIPE, stderr=subprocess.STDOUT, text=True, timeout=HARNESS_TIMEOUT)
+            # the printed / parsed text must not depend on the process' local time zone
+            tz = [None, "Asia/Tokyo", "America/New_York", "Pacific/Chatham"][i % 4]
+            env = dict(os.environ, TZ=tz) if tz else None
+            p = run_harness([binp, "drive-text", str(seed * 1000 + i), str(per), tf], env=env)
             if p.returncode != 0:
                 raise Broken("drive-text failed: " + p.stdout[-1000:])
             lines = open(tf).read().splitlines()
@@ -139,6 +142,7 @@ def run_c19(tier, seed):
         return v.finish("model_checking", cov, [
             "strings with a redundant leading zero ('01s') and fractional seconds are left open (UNSPECIFIED.md)",
             "timestamps are (day, second-of-day) pairs in the specification because a 32-bit second count exceeds TLC's integers",
+            "driver parts run with TZ unset, Asia/Tokyo, America/New_York and Pacific/Chatham (text must not depend on the local zone)",
             "thorough tier: the round-trip law is additionally swept over all 2^31 durations and 2^32 timestamps on the real code (no oracle needed for that law)"])
     finally:
         shutil.rmtree(wd, ignore_errors=True)
